@@ -4,9 +4,11 @@ import LunarVerif.Spec.C01
 implementation's answers).
 
 Op lines (numbers are decimal naturals, `-` = none):
-  quota id=<n> parent=<n|-> max=<n> win=<ns> gh=<n|->      ids must be 0,1,2,… in order
+  quota id=<n> parent=<n|-> max=<n> win=<ns> gh=<n|-> [cc=<n|->]   ids must be 0,1,2,… in order
+  quota id=<n> parent=<n> pct=<1..100>                      allocation_percentage child
   start level=<1|2> t=<ns>
-  inc|allowed|dec|req q=<n> r=<n> t=<ns> hdrs=<-|i:v,i:v,…>   v = d ("default") or a number ≥ 1
+  inc|allowed|dec|req q=<n> r=<n> t=<ns> hdrs=<-|i:v,i:v,…> [costs=<-|i:enc,…>]
+                                                              v = d ("default") or a number ≥ 1; enc = text of x-c<i>
   counters q=<n> t=<ns> groups=<g,g,…>                         g = 0 ("default") or a number ≥ 1
 -/
 open LunarVerif LunarVerif.Proto LunarVerif.C01
@@ -17,13 +19,28 @@ def kvOptNat (ws : List String) (k : String) : Option (Option Nat) :=
   | some "-" => some none
   | some s => s.toNat?.map some
 
-def parseQuota (ws : List String) : Option (Nat × QuotaCfg) := do
+/-- A `quota` line: `some (id, definition, valid)`.  Explicit: `id= parent= max= win= gh= [cc=]`; percentage
+    child: `id= parent= pct=` — the definition is what the loader derives from the parent (`allocate`). -/
+def parseQuota (qs : List QuotaCfg) (ws : List String) : Option (Nat × QuotaCfg × Bool) := do
   let id ← kvNat ws "id"
   let p ← kvOptNat ws "parent"
-  let mx ← kvNat ws "max"
-  let win ← kvNat ws "win"
-  let gh ← kvOptNat ws "gh"
-  pure (id, ⟨p, mx, win, gh⟩)
+  match kv ws "pct" with
+  | some _ =>
+    let pct ← kvNat ws "pct"
+    match p with
+    | some pid =>
+      match qs[pid]? with
+      | some pc => pure (id, allocate pid pc pct, decide (1 ≤ pct ∧ pct ≤ 100))
+      | none => pure (id, ⟨p, 0, 0, none, none⟩, false)
+    | none => pure (id, ⟨p, 0, 0, none, none⟩, false)
+  | none =>
+    let mx ← kvNat ws "max"
+    let win ← kvNat ws "win"
+    let gh ← kvOptNat ws "gh"
+    let cc ← (match kv ws "cc" with
+              | some _ => kvOptNat ws "cc"
+              | none => some none)
+    pure (id, ⟨p, mx, win, gh, cc⟩, decide (1 ≤ mx))
 
 /-- `i:v,i:v`; later entries override earlier ones (a Go map literal filled in order). -/
 def parseHdrs (s : String) : Option Hdrs :=
@@ -35,6 +52,24 @@ def parseHdrs (s : String) : Option Hdrs :=
       | some i, some g => some ((i, g) :: l)
       | _, _ => none
     | _, _ => none
+
+/-- `costs=i:enc,…`: readings of the counter-value headers `x-c<i>` (enc = percent-encoded text). -/
+def parseCosts (s : String) : Option Hdrs :=
+  if s == "-" then some [] else
+  (s.splitOn ",").foldl (init := some []) fun acc item =>
+    match acc, item.splitOn ":" with
+    | some l, [i, v] =>
+      match i.toNat? with
+      | some i => some ((costKey i, parseCost (pctDec v)) :: l)
+      | none => none
+    | _, _ => none
+
+/-- All headers of an op line: group headers and (optional) counter-value headers. -/
+def parseAllHdrs (ws : List String) : Option Hdrs := do
+  let h ← (kv ws "hdrs").bind parseHdrs
+  match kv ws "costs" with
+  | none => pure h
+  | some cs => let c ← parseCosts cs; pure (c ++ h)
 
 def parseGroups (s : String) : Option (List Nat) :=
   (s.splitOn ",").foldr (init := some []) fun item acc =>
@@ -49,6 +84,7 @@ def parseKind (s : String) : Option Kind :=
 structure RunSt where
   quotas : List QuotaCfg := []
   level : Option Nat := none      -- `some l` once started
+  badQuota : Bool := false        -- some quota line is not loadable (limit 0, percentage out of range, no parent)
   okCfg : Bool := false
   st : St := St.init
 
@@ -64,16 +100,16 @@ def runStep (s : RunSt) (line : String) : RunSt × String :=
   match words line with
   | ["case", id] => ({}, s!"case {id}")
   | "quota" :: ws =>
-    match parseQuota ws with
-    | some (id, c) =>
+    match parseQuota s.quotas ws with
+    | some (id, c, valid) =>
       if s.level.isSome || id != s.quotas.length then (s, "bad-op")
-      else ({ s with quotas := s.quotas ++ [c] }, "ok")
+      else ({ s with quotas := s.quotas ++ [c], badQuota := s.badQuota || !valid }, "ok")
     | none => (s, "bad-op")
   | "start" :: ws =>
     match kvNat ws "level", kvNat ws "t" with
     | some l, some _ =>
       if s.level.isSome || (l != 1 && l != 2) then (s, "bad-op")
-      else if !s.quotas.isEmpty && wellFormed ⟨s.quotas⟩ then ({ s with level := some l, okCfg := true }, "ok")
+      else if !s.quotas.isEmpty && !s.badQuota && wellFormed ⟨s.quotas⟩ then ({ s with level := some l, okCfg := true }, "ok")
       else ({ s with level := some l, okCfg := false }, "err:cfg")
     | _, _ => (s, "bad-op")
   | "counters" :: ws =>
@@ -95,7 +131,7 @@ def runStep (s : RunSt) (line : String) : RunSt × String :=
       match kvNat ws "q", kvNat ws "t" with
       | some q, some t =>
         if !(s.level.isSome && s.okCfg) then (s, "err:nostart")
-        else match kvNat ws "r", (kv ws "hdrs").bind parseHdrs with
+        else match kvNat ws "r", parseAllHdrs ws with
           | some r, some h =>
             if s.quotas[q]?.isNone then (s, "err:noquota")
             else if s.level == some 2 && kind != .req then (s, "err:level")
@@ -115,14 +151,14 @@ def judgeStep (s : JudgeSt) (op out : String) : JudgeSt :=
   match words op with
   | "quota" :: ws =>
     if out != "ok" then s else
-    match parseQuota ws with
-    | some (_, c) => { s with quotas := s.quotas ++ [c] }
+    match parseQuota s.quotas ws with
+    | some (_, c, _) => { s with quotas := s.quotas ++ [c] }
     | none => s
   | k :: ws =>
     match parseKind k with
     | none => s
     | some kind =>
-      match kvNat ws "q", kvNat ws "t", kvNat ws "r", (kv ws "hdrs").bind parseHdrs with
+      match kvNat ws "q", kvNat ws "t", kvNat ws "r", parseAllHdrs ws with
       | some q, some t, some r, some h =>
         let o : Op := ⟨kind, q, r, t, h⟩
         if out == "ok" && (kind == .inc || kind == .dec) then { s with hist := ⟨o, none⟩ :: s.hist }
